@@ -168,7 +168,26 @@ inductive Cls where
        -- uint64 overflow guards on per-epoch block counters (bounded by the number of blocks)
   | F  -- outside the Lean model (beacon backends, key manager, roothash messaging/finalization
        -- internals): pinned by this ledger and exercised by the drivers only
+  | K  -- REACHABLE, recorded as a known finding with the failing history (known-findings.txt): the site is
+       -- kept in the ledger so that it stays pinned; it is not claimed unreachable
 deriving DecidableEq, Repr
+
+/-
+Scope of the ledger (re-examined site by site in `docs/review-c10-fatal-paths.md`, an independent reading of the Go
+code made after a hand justification of this kind had turned out wrong under C08):
+  * the extraction models a call into ANOTHER application's state package (`TransferFromCommon`, `SlashEscrow`,
+    `AddRewards`, `RemoveStakeClaim`, `SuspendRuntime`, the governance-deposit moves) as a write, which can only
+    fail as state-unavailable; the ordinary errors of these callees are therefore NOT sites of this ledger.  They
+    are discharged elsewhere: the staking movers by the totality theorems of `Props/C10Ledger.lean` (with
+    `TransferFromCommon(escrow)` on a pool slashed to zero under 100 % commission as the recorded known finding
+    `c10-fatal:tfc:slashed-pool-full-commission`), the others by the reading in the review;
+  * `Publish(MessageBeforeSchedule)` hides the roothash `doBeforeSchedule` tree behind the single scheduler site
+    classed K below (known finding: `DebondingInterval = 0`);
+  * `roothash.go:onRuntimeCommitteeChanged … unknown runtime governance model` (class F) IS a real fatal path for a
+    GENESIS compute runtime with consensus governance once a committee is elected (`StakingAddress()` is not ok);
+    transactions and proposals cannot create such a runtime (registry refuses the model), so it is outside the
+    property's quantifier (block content), noted here.
+-/
 
 def ledger : List (String × List (String × Cls)) := [
   ("beacon_Application_BeginBlock", [
@@ -251,7 +270,7 @@ def ledger : List (String × List (String × Cls)) := [
     ("finalization.go:finalizeBlock:rearmRoundTimeout(ctx)", .F)]),
   ("scheduler_BeginBlock", [
     ("scheduler.go:shouldElect:fmt.Errorf(cometbft/scheduler: couldn't get base epoch: %w)", .U),
-    ("scheduler.go:elect:fmt.Errorf(cometbft/scheduler: before schedule notification)", .R),
+    ("scheduler.go:elect:fmt.Errorf(cometbft/scheduler: before schedule notification)", .K),
     ("state.go:ConsensusParameters:fmt.Errorf(cometbft/scheduler: expected consensus parameter)", .U),
     ("scheduler.go:elect:fmt.Errorf(cometbft/scheduler: couldn't get beacon: %w)", .U),
     ("scheduler.go:elect:fmt.Errorf(cometbft/scheduler: failed to query VRF state: %)", .U),
